@@ -151,4 +151,23 @@ CLAIMED['C12'] = dict(category='proof',
    note=_ASSUME + 'Float exponents are read as exact ratios (59/91 etc.). The total.evaluates[*] obligations are BOUNDED '
         'run-time contracts; SE2 symbolically and convergence of the iteration are not decided.',
    technique='contract-based deductive verification (proxy execution, generalised-monomial normaliser with rational exponents, loop cut from source) + bounded run-time contracts')
+CLAIMED['C10'] = dict(category='proof',
+   text='The nested loops of the real _map_asm2gap are cut from the source and verified with arrays of SYMBOLIC length '
+        '(contents = uninterpreted strictly increasing functions): loop invariant established / preserved / sufficient, '
+        'every array index in bounds, all stores in the current row, variant decreasing; so every entry of the overlap '
+        'matrix is the length of the intersection of the two cells, for every mesh size and every real boundary value. A '
+        'ghost lemma (telescoping step) gives row sums = duct cell widths and column sums = gap cell widths. The rest of '
+        'the real function (normalisation, merge of the split corner, trimming, zero padding, identity shortcut) is '
+        'executed on symbolic boundary values at fixed small sizes, all interleavings of the two meshes: weights >= 0, '
+        'unit row sums in both directions, the perimeter-weighted integral is preserved in both directions (also with '
+        'corner halves of different length), coinciding meshes give the identity. The producers of the two meshes '
+        '(RoddedRegion/unrodded calculate_xbnds, Core._calculate_gap_xbnds) satisfy the preconditions.',
+   note=_ASSUME + 'The post-loop part is proved per size (2-4 duct cells x 2-5 gap cells: BOUNDED in the number of cells, '
+        'exact in the values) and checked by run-time contracts on reactor-built maps for ring counts 2..15 x 2..15 '
+        '(quick tier: 6 x 6 subset), unequal pitches, unrodded regions, double ducts, empty positions (BOUNDED). '
+        'numpy.searchsorted has an assumed contract. Meshes that coincide only within numpy.allclose tolerance are '
+        'mapped by the identity, i.e. conservative to that tolerance.',
+   technique='contract-based deductive verification: loop invariants over symbolic-length arrays (VCs from the real loop '
+             'bodies, z3 with uninterpreted functions + linear integer/real arithmetic), proxy execution of the whole '
+             'function at fixed sizes; bounded run-time contracts for reactor-built meshes')
 NOT_APPLICABLE = {f'C{i:02d}': 'check not built yet in this round (see DESIGN.md section 12 build order)' for i in range(1, 21)}
